@@ -284,6 +284,10 @@ class GeoIndex:
         ]).T
 
         if not return_distance:
+            if pairs.size and self.shuffler is not None:
+                # The build points were shuffled (see below): translate their
+                # indices back here as well
+                pairs[0, :] = self.shuffler[pairs[0, :]]
             return pairs
 
         if not pairs.size:
